@@ -345,3 +345,72 @@ Proof.
   - exact (dprim_3d_integral (0, 1, 0)%nat sa sb ca cb al be Ha Hb).
   - exact (dprim_3d_integral (0, 0, 1)%nat sa sb ca cb al be Ha Hb).
 Qed.
+
+(* angular momentum about the coordinate origin (the real matrix R of the value -i R):
+   iterated integral of phi_a (r x grad)_i phi_b = ang_{x,y,z}_prim of CoreDiffP.v *)
+Lemma ang_term (sa sb : shell R) (ca cb : Shell.comp) (al be : R) : 0 < al -> 0 < be ->
+  (* y d/dz, z d/dy *)
+  gint3 (fun x y z => sprim sa al ca x y z * (y * pd3 0 0 1 (sprim sb be cb) x y z))
+        (S1 RK (s_x sa) (s_x sb) al be (cx ca) (cx cb) * M1o RK (s_y sa) (s_y sb) al be (cy ca) (cy cb)
+         * D1 RK (s_z sa) (s_z sb) al be 1 (cz ca) (cz cb)) /\
+  gint3 (fun x y z => sprim sa al ca x y z * (z * pd3 0 1 0 (sprim sb be cb) x y z))
+        (S1 RK (s_x sa) (s_x sb) al be (cx ca) (cx cb) * D1 RK (s_y sa) (s_y sb) al be 1 (cy ca) (cy cb)
+         * M1o RK (s_z sa) (s_z sb) al be (cz ca) (cz cb)) /\
+  (* z d/dx, x d/dz *)
+  gint3 (fun x y z => sprim sa al ca x y z * (z * pd3 1 0 0 (sprim sb be cb) x y z))
+        (D1 RK (s_x sa) (s_x sb) al be 1 (cx ca) (cx cb) * S1 RK (s_y sa) (s_y sb) al be (cy ca) (cy cb)
+         * M1o RK (s_z sa) (s_z sb) al be (cz ca) (cz cb)) /\
+  gint3 (fun x y z => sprim sa al ca x y z * (x * pd3 0 0 1 (sprim sb be cb) x y z))
+        (M1o RK (s_x sa) (s_x sb) al be (cx ca) (cx cb) * S1 RK (s_y sa) (s_y sb) al be (cy ca) (cy cb)
+         * D1 RK (s_z sa) (s_z sb) al be 1 (cz ca) (cz cb)) /\
+  (* x d/dy, y d/dx *)
+  gint3 (fun x y z => sprim sa al ca x y z * (x * pd3 0 1 0 (sprim sb be cb) x y z))
+        (M1o RK (s_x sa) (s_x sb) al be (cx ca) (cx cb) * D1 RK (s_y sa) (s_y sb) al be 1 (cy ca) (cy cb)
+         * S1 RK (s_z sa) (s_z sb) al be (cz ca) (cz cb)) /\
+  gint3 (fun x y z => sprim sa al ca x y z * (y * pd3 1 0 0 (sprim sb be cb) x y z))
+        (D1 RK (s_x sa) (s_x sb) al be 1 (cx ca) (cx cb) * M1o RK (s_y sa) (s_y sb) al be (cy ca) (cy cb)
+         * S1 RK (s_z sa) (s_z sb) al be (cz ca) (cz cb)).
+Proof.
+  intros Ha Hb.
+  pose proof (fun A B i j => deriv_1d_integral al be A B 0 i j Ha Hb) as HS.
+  pose proof (fun A B i j => deriv_1d_integral al be A B 1 i j Ha Hb) as HD.
+  pose proof (fun A B i j => moment1_1d_integral al be A B i j Ha Hb) as HM.
+  repeat split.
+  - refine (gint3_ext _ _ _ _ _ eq_refl (gint3_prod _ _ _ _ _ _ (HS _ _ _ _) (HM _ _ _ _) (HD _ _ _ _))).
+    intros x y z. unfold sprim. rewrite pd3_cprim, cprim_split. cbn [Derive_n]. ring.
+  - refine (gint3_ext _ _ _ _ _ eq_refl (gint3_prod _ _ _ _ _ _ (HS _ _ _ _) (HD _ _ _ _) (HM _ _ _ _))).
+    intros x y z. unfold sprim. rewrite pd3_cprim, cprim_split. cbn [Derive_n]. ring.
+  - refine (gint3_ext _ _ _ _ _ eq_refl (gint3_prod _ _ _ _ _ _ (HD _ _ _ _) (HS _ _ _ _) (HM _ _ _ _))).
+    intros x y z. unfold sprim. rewrite pd3_cprim, cprim_split. cbn [Derive_n]. ring.
+  - refine (gint3_ext _ _ _ _ _ eq_refl (gint3_prod _ _ _ _ _ _ (HM _ _ _ _) (HS _ _ _ _) (HD _ _ _ _))).
+    intros x y z. unfold sprim. rewrite pd3_cprim, cprim_split. cbn [Derive_n]. ring.
+  - refine (gint3_ext _ _ _ _ _ eq_refl (gint3_prod _ _ _ _ _ _ (HM _ _ _ _) (HD _ _ _ _) (HS _ _ _ _))).
+    intros x y z. unfold sprim. rewrite pd3_cprim, cprim_split. cbn [Derive_n]. ring.
+  - refine (gint3_ext _ _ _ _ _ eq_refl (gint3_prod _ _ _ _ _ _ (HD _ _ _ _) (HM _ _ _ _) (HS _ _ _ _))).
+    intros x y z. unfold sprim. rewrite pd3_cprim, cprim_split. cbn [Derive_n]. ring.
+Qed.
+
+Theorem angmom_prim_3d_integral (sa sb : shell R) (ca cb : Shell.comp) (al be : R) :
+  0 < al -> 0 < be ->
+  gint3 (fun x y z => sprim sa al ca x y z
+                      * (y * pd3 0 0 1 (sprim sb be cb) x y z - z * pd3 0 1 0 (sprim sb be cb) x y z))
+        (ang_x_prim RK sa sb ca cb al be) /\
+  gint3 (fun x y z => sprim sa al ca x y z
+                      * (z * pd3 1 0 0 (sprim sb be cb) x y z - x * pd3 0 0 1 (sprim sb be cb) x y z))
+        (ang_y_prim RK sa sb ca cb al be) /\
+  gint3 (fun x y z => sprim sa al ca x y z
+                      * (x * pd3 0 1 0 (sprim sb be cb) x y z - y * pd3 1 0 0 (sprim sb be cb) x y z))
+        (ang_z_prim RK sa sb ca cb al be).
+Proof.
+  intros Ha Hb. destruct (ang_term sa sb ca cb al be Ha Hb) as [X1 [X2 [Y1 [Y2 [Z1 Z2]]]]].
+  split; [|split].
+  - refine (gint3_ext _ _ _ _ _ _ (gint3_minus _ _ _ _ X1 X2)); [intros x y z; cbv beta; ring|].
+    unfold ang_x_prim. change (fmul RK) with Rmult. change (fsub RK) with Rminus.
+    fold (S1 RK (s_x sa) (s_x sb) al be). ring.
+  - refine (gint3_ext _ _ _ _ _ _ (gint3_minus _ _ _ _ Y1 Y2)); [intros x y z; cbv beta; ring|].
+    unfold ang_y_prim. change (fmul RK) with Rmult. change (fsub RK) with Rminus.
+    fold (S1 RK (s_y sa) (s_y sb) al be). ring.
+  - refine (gint3_ext _ _ _ _ _ _ (gint3_minus _ _ _ _ Z1 Z2)); [intros x y z; cbv beta; ring|].
+    unfold ang_z_prim. change (fmul RK) with Rmult. change (fsub RK) with Rminus.
+    fold (S1 RK (s_z sa) (s_z sb) al be). ring.
+Qed.
